@@ -57,18 +57,19 @@ theorem recvFinished_base (c : Cfg) (ar aq : Nat) (s : S) (b : Base c ar aq s) (
   · exact key _ (Or.inl rfl)
 
 /-- a cleaned mid-state: `processError` returns `End` and the worker is gone -/
-theorem finish_cleaned (c : Cfg) (ar aq : Nat) (s : S) (b : Base c ar aq s) (hcl : s.cleaned = true) :
+theorem finish_cleaned (c : Cfg) (ar aq : Nat) (s : S) (b : Base c ar aq s) (hcl : s.cleaned = true) (h33 : K33 c s) :
     Inv c ar aq (finishPhase c s) := by
   rw [finishPhase_eq, processError_spec]
   simp only [hcl, if_true, finishOf]
   rw [reenter_end]
-  exact tail_clean c ar aq s b hcl .End s.pass s.notify
+  exact tail_clean c ar aq s b hcl h33 .End s.pass s.notify
 
 /-- the last downstream-sender call of a response: the event is written with end of stream, the stream is cleaned and
 the worker returns -/
 theorem respond_eos (c : Cfg) (ar aq : Nat) (s : S) (e : Ev) (rst : Bool) (b : Base c ar aq s)
     (hcl : s.cleaned = false) (hlc : liveCount s.streams = 0)
-    (hbad : (sndStep (snd s.trace) e).bad = false) (hhdr : (sndStep (snd s.trace) e).hdr = rst) (hlog : isLog e = false) :
+    (hbad : (sndStep (snd s.trace) e).bad = false) (hhdr : (sndStep (snd s.trace) e).hdr = rst) (hlog : isLog e = false)
+    (hend : (sndStep (snd s.trace) e).ended = true) :
     Inv c ar aq (finishPhase c (endStream c
       { s with respStarted := rst, procDone := true, trace := s.trace ++ [e], downLive := false })) := by
   have hb : Base c ar aq { s with respStarted := rst, procDone := true, trace := s.trace ++ [e], downLive := false } := by
@@ -80,7 +81,14 @@ theorem respond_eos (c : Cfg) (ar aq : Nat) (s : S) (e : Ev) (rst : Bool) (b : B
   unfold endStream cleanStream
   simp only [hcl, Bool.false_eq_true, if_false]
   have hcb := cleanBody_base c ar aq _ hb hcl (fun _ => hlc)
-  exact finish_cleaned c ar aq _ hcb.1 hcb.2
+  apply finish_cleaned c ar aq _ hcb.1 hcb.2
+  intro _
+  left
+  have e1 : snd (cleanBody c { s with respStarted := rst, procDone := true, trace := s.trace ++ [e], downLive := false }).trace =
+      sndStep (snd s.trace) e := by
+    have := (cleanBody_snd c { s with respStarted := rst, procDone := true, trace := s.trace ++ [e], downLive := false })
+    rw [this]; simp [snd_append]
+  rw [e1]; exact hend
 
 /-- a downstream-sender call that does not end the stream -/
 theorem respond_more_base (c : Cfg) (ar aq : Nat) (s : S) (e : Ev) (rst : Bool) (b : Base c ar aq s)
@@ -123,12 +131,12 @@ theorem inv_work_upfilter (c : Cfg) (ar aq : Nat) (s : S) (h : Inv c ar aq s) (h
   unfold peTail
   by_cases hd : s.downReset = true
   · rw [if_pos hd]
-    exact tail_down c ar aq s h.base hcl (fun _ => hlc)
+    exact tail_down c ar aq s h.base hcl hd (fun _ => hlc)
   · rw [if_neg hd, if_neg (by simp [hdir]), if_neg (by simp [hsr])]
     rw [show (false || s.procDone) = false from by simp [hpd]]
     simp only [Bool.false_eq_true, if_false]
-    obtain ⟨k0, k1, k2, k3, k4, k5, k6, k7, k8, k9, k10, k11, k12, k13, k14, k15, k16, k17, k18, k19, k20, k21, k22, k23, k24, k25, k26, k27, k28, k29, k30, k31, k32⟩ := h
-    refine ⟨k0, k1, k2, k3, k4, k5, k6, k7, ?_, k9, k10, k11, k12, k13, ?_, ?_, ?_, ?_, ?_, ?_, k20, k21, k22, ?_, k24, k25, ?_, ?_, k28, ?_, ?_, ?_, ?_⟩
+    obtain ⟨k0, k1, k2, k3, k4, k5, k6, k7, k8, k9, k10, k11, k12, k13, k14, k15, k16, k17, k18, k19, k20, k21, k22, k23, k24, k25, k26, k27, k28, k29, k30, k31, k32, k33⟩ := h
+    refine ⟨k0, k1, k2, k3, k4, k5, k6, k7, ?_, k9, k10, k11, k12, k13, ?_, ?_, ?_, ?_, ?_, ?_, k20, k21, k22, ?_, k24, k25, ?_, ?_, k28, ?_, ?_, ?_, ?_, (fun hh => absurd hh (by simp [hcl]))⟩
     · intro _; exact ⟨(k8 hcl).1, Or.inr (Or.inl (by simp [hp, Phase.next, upPhase]))⟩
     · rw [K14, streamsOk_iff] at k14 ⊢
       refine ⟨k14.1, ?_, ?_⟩
